@@ -17,7 +17,7 @@ From LV Require Import Proofs.SpellingNumProofs Proofs.SpellingObjProofs Proofs.
 From LV Require Model.Utf Proofs.LoadsFrameProofs Proofs.LoadsTableProofs Proofs.LoadsStreamProofs Proofs.LoadsFilterProofs.
 From LV Require Model.LoaderExt Model.StreamFilt Spec.StreamCodecSpec Model.Png Proofs.ObjStmSpellProofs Proofs.LengthRefProofs Gen.SaveFmt Proofs.LoadsRefLenProofs Proofs.ObjStmFilterProofs.
 From LV Require Proofs.LoadsLoopProofs Proofs.LoadsObjStmProofs Proofs.LoadsObjStmFile Proofs.LoadsObjStmWhole Proofs.LoadsFullProofs Proofs.LoaderExtProofs.
-From LV Require Proofs.LoadsMultiProofs Proofs.LoadsMultiFull Proofs.LoadsMultiExample.
+From LV Require Proofs.LoadsMultiProofs Proofs.LoadsMultiFull Proofs.LoadsMultiExample Proofs.LoadsMultiXSec Proofs.LoadsMultiMixed Proofs.LoadsMultiMixedFull.
 Local Open Scope N_scope.
 
 (* (1) Cross-reference streams.  For ALL field widths (0 = field absent, any positive width, not all three
@@ -1212,9 +1212,10 @@ Theorem C02_load_chain_frame :
            d_max_id := xref_max_id (fold_left xref_merge (map (fun s => fst (snd s)) rest) x0) |} (x_type x0).
 Proof. exact LoadsLoopProofs.load_ext_frame_chain. Qed.
 
-(* what is missing for the files of ref_write_multi: that the sections write_parts lays out form such a chain (each decodes
-   by the single-section lemmas restated for section_text with a Prev entry) and that every entry of the merged table names
-   the object the document defines (entry_spec: the layout of write_parts, offsets per part) *)
+(* the statement for the WHOLE style space of ref_write_multi stays a Definition.  Proved below: C02_loads_multi_table (every
+   part a table) and C02_loads_multi_mixed (every part a table or an unfiltered cross-reference stream, mixed chains).  Missing
+   (notes/C02.md, Round 5): a FILTER on the cross-reference stream of a part, object streams across parts, a stream whose Length
+   is a reference (to an object of any part), and the trailer clause of C02_full for the newest trailer *)
 Definition C02_loads_multi_partial : Prop :=
   forall (st : fstyle) (parts : list mpart) (a : adoc) (file : bytes),
     ref_write_multi st parts a = Some file ->
@@ -1281,6 +1282,58 @@ Theorem C02_example_loads_multi_table :
   exists file, ref_write_multi LoadsMultiExample.ex_fstyle LoadsMultiExample.ex_parts_m LoadsMultiExample.ex_adoc = Some file /\
                C02_multi_domain_table LoadsMultiExample.ex_fstyle LoadsMultiExample.ex_parts_m LoadsMultiExample.ex_adoc file.
 Proof. exact LoadsMultiExample.example_loads_multi_table. Qed.
+
+(* ---------------------------------------------------------------------------------------------
+   FILES OF SEVERAL SECTIONS, EITHER FORMAT PER PART -- MIXED CHAINS (Proofs/LoadsMultiXSec.v, LoadsMultiMixed.v,
+   LoadsMultiMixedFull.v).  Every part of ref_write_multi ends with a cross-reference TABLE and trailer, or with a
+   cross-reference STREAM (no filter): ANY W (W[0] = 0 / W[2] = 0 where legal, widened where too narrow), ANY Index partition
+   or the maximal runs, Index left out when it is the default, the stream object in any spelling, its dictionary holding the
+   document's trailer entries, Size and Prev; a table may name a stream by Prev and vice versa.  The cross-reference stream of
+   a part is one more top-level object of that part and lists ITSELF; the loader keeps these objects (as it does for a
+   single-section file, C02_loads_stream_partial), so the statement excepts their numbers [part_xids parts] exactly as C02_full
+   excepts [structural_nums].  For every other identifier the loaded object and [content a] agree by value: none missing, none
+   added, superseded definitions not delivered, an object listed again keeps its definition.
+   THE DOMAIN [C02_multi_domain st parts a file]: as C02_multi_domain_table, with [parts_ok] = per part, AT THE VALUES ITS LAYOUT
+   HAS (position, Prev, the merge so far, the highest number so far): a table part: [trailer_dom]; a stream part: no filter, and
+   the stream dictionary (Type, Size, W, Index, the document's trailer entries, Prev, Length) is spelled legally in the style of
+   the stream object ([spell_wf], nesting <= MAX_DEPTH); the document's trailer holds none of Size / Prev / Encrypt / XRefStm /
+   Index / Filter; object numbers incl. the cross-reference streams' fit u32.
+   --------------------------------------------------------------------------------------------- *)
+Definition C02_multi_domain (st : fstyle) (parts : list mpart) (a : adoc) (file : bytes) : Prop :=
+  s_ostms st = [] /\
+  LoadsMultiMixed.parts_ok st a (part_xids parts) parts (blen (RefWriter.header st (a_version a))) None [] 0 /\
+  Forall LoadsTableProofs.top_ok (LoadsTableProofs.tops st a) /\ Utf.utf8_decode (a_version a) <> None /\
+  (dict_get (a_trailer a) RefWriter.K_Size = None /\ dict_get (a_trailer a) K_Prev = None /\
+   dict_get (a_trailer a) K_Encrypt = None /\ dict_get (a_trailer a) K_XRefStm = None /\
+   dict_get (a_trailer a) K_Index = None /\ dict_get (a_trailer a) K_Filter = None) /\
+  1 + max_num (map (fun io => fst (fst io)) (a_objs a) ++ part_xids parts) <= u32_max /\ blen file <= u32_max /\
+  match parts with
+  | p :: _ => 25 < LoadsMultiMixed.p_xpos st a p (blen (RefWriter.header st (a_version a)))
+  | [] => True
+  end /\
+  (forall lastp xs, last_part parts = Some lastp -> xs <= blen file ->
+     (9 + length (LoadsTableProofs.sx_mid (s_sx_eol1 (with_part st lastp true)) (s_sx_sp1 (with_part st lastp true)) xs
+                    (s_sx_sp2 (with_part st lastp true)) (s_sx_eol2 (with_part st lastp true))) <= 25)%nat).
+
+Theorem C02_loads_multi_mixed :
+  forall (st : fstyle) (parts : list mpart) (a : adoc) (file : bytes),
+    C02_multi_domain st parts a file -> ref_write_multi st parts a = Some file ->
+    exists d t, LoaderExt.load_ext LoadsFilterProofs.decompress_ref LoadsFilterProofs.can_ref file = LOk d t /\
+                d_version d = a_version a /\
+                (forall id, In (fst id) (part_xids parts) \/
+                            match lookup (d_objects d) id, lookup (content a) id with
+                            | Some o, Some o' => same_value o' o
+                            | None, None => True
+                            | _, _ => False
+                            end).
+Proof. exact (LoadsMultiMixedFull.loads_multi_mixed_full LoadsFilterProofs.decompress_ref LoadsFilterProofs.can_ref). Qed.
+
+(* non-vacuity: part 1 = object 3, a superseded definition of object 7, a cross-reference STREAM (object 9, W [0 1 0] widened,
+   three sub-sections); part 2 = the current object 7, object 3 listed again, a TABLE whose trailer's Prev names the stream *)
+Theorem C02_example_loads_multi_mixed :
+  exists file, ref_write_multi LoadsMultiExample.ex_fstyle LoadsMultiExample.ex_parts_x LoadsMultiExample.ex_adoc = Some file /\
+               C02_multi_domain LoadsMultiExample.ex_fstyle LoadsMultiExample.ex_parts_x LoadsMultiExample.ex_adoc file.
+Proof. exact LoadsMultiExample.example_loads_multi_mixed. Qed.
 
 (* non-vacuity of C02_full: the object-stream example (stream format) and the Length-reference example (table format)
    are in the domain *)
@@ -1426,6 +1479,8 @@ Print Assumptions C02_load_chain_frame.
 Print Assumptions C02_full_over_load.
 Print Assumptions C02_loads_multi_table.
 Print Assumptions C02_example_loads_multi_table.
+Print Assumptions C02_loads_multi_mixed.
+Print Assumptions C02_example_loads_multi_mixed.
 Print Assumptions C02_example_full.
 Print Assumptions C02_example_loads_table.
 Print Assumptions C02_example_object.
